@@ -73,13 +73,14 @@ class SBool(Sym):
 class SBytes(Sym):
     """Immutable byte string (bytes).  n: Int term, at: index term -> Int term in [0,256)."""
 
-    __slots__ = ("n", "at", "name", "prov")
+    __slots__ = ("n", "at", "name", "prov", "parts")
 
-    def __init__(self, n: Any, at: Callable[[Any], Any], name: str = "", prov: Any = None):
+    def __init__(self, n: Any, at: Callable[[Any], Any], name: str = "", prov: Any = None, parts: Any = None):
         self.n = n if z3.is_expr(n) else z3.IntVal(n)
         self.at = at
         self.name = name
-        self.prov = prov  # ("to_bytes", int term, order, n): these bytes are the n-digit base-256 notation of a value
+        self.prov = prov
+        self.parts = parts  # for concatenations of concrete-length pieces: [(offset, piece)] so that exact sub-slices keep their identity  # ("to_bytes", int term, order, n): these bytes are the n-digit base-256 notation of a value
 
     def __repr__(self) -> str:
         return f"SBytes({self.name or '?'}, n={self.n})"
